@@ -411,6 +411,12 @@ Section Wrap.
     wrap_file_with hdrdec srt o (mkfs (Some x) (DOther d)) = wrap_file_with hdrdec srt o (mkfs (Some x) (DOther d')).
   Proof. rewrite !wrap_file_other. reflexivity. Qed.
 
+  (* the padding options are accepted by WrapV1's signature and have no effect at all *)
+  Theorem wrap_ignores_padding o dpad ipad x :
+    wrap_bytes_opts hdrdec srt (mkwrapopts o dpad ipad) x = wrap_bytes_opts hdrdec srt (mkwrapopts o 0 0) x
+    /\ wrap_bytes_opts hdrdec srt (mkwrapopts o dpad ipad) x = wrap_bytes_with hdrdec srt o x.
+  Proof. split; reflexivity. Qed.
+
   Corollary wrap_bytes_fuel_enough o x : wrap_bytes_with hdrdec srt o x <> Err EFuel.
   Proof.
     unfold wrap_bytes_with. destruct (idx_new (x_codec o)); [|discriminate].
